@@ -4,6 +4,7 @@ import (
 	"fmt"
 	"math/rand"
 	"os"
+	"slices"
 	"strconv"
 	"strings"
 
@@ -147,7 +148,13 @@ type c08RT struct {
 	ID          int        `json:"id"`
 	Alts        [][]c08Lit `json:"alts"`
 	Cancellable bool       `json:"cancellable"`
-	TM          string     `json:"tmtext"`
+	// Leads[i]: the first terminals (1 p, 2 q) alternative i starts with; NLead 1: the plain grammar without a leading terminal.
+	Leads [][]int `json:"leads"`
+	NLead int     `json:"nlead"`
+	// Many > 0: a grammar with Many pairs (?= Pj) / (?= !Pj) in Many different states (2*Many lookahead nonterminals); alternative
+	// 2j-1 is the "yes" branch of pair j, 2j its "no" branch; text 2j-1 makes Pj hold, text 2j does not.
+	Many int    `json:"many"`
+	TM   string `json:"tmtext"`
 	GenErr      string     `json:"genErr"`
 	Chosen      []int      `json:"chosen"` // per assignment (bit j-1 set: input j matches): the alternative whose node was reported, 0 none
 	Errs        []string   `json:"errs"`
@@ -193,7 +200,10 @@ func c08RTRun(args []string) error {
 			continue
 		}
 		for _, canc := range []bool{false, true} {
-			rec := &c08RT{ID: len(recs), Alts: c.Alts, Cancellable: canc, Chosen: []int{}, Errs: []string{}}
+			rec := &c08RT{ID: len(recs), Alts: c.Alts, Cancellable: canc, Chosen: []int{}, Errs: []string{}, NLead: 1}
+			for range c.Alts {
+				rec.Leads = append(rec.Leads, []int{1})
+			}
 			pkg := fmt.Sprintf("k%d", len(recs))
 			var b strings.Builder
 			fmt.Fprintf(&b, "language %s(go);\n\npackage = \"rt/%s\"\neventBased = true\n", pkg, pkg)
@@ -234,6 +244,129 @@ func c08RTRun(args []string) error {
 			items = append(items, it)
 		}
 	}
+	// alternatives that start with different terminals: the sets in conflict differ from terminal to terminal within one state
+	// (S: x Alt; Alt: (?= ..) Lead_i Any Any Any; the predicates skip the leading terminal). Random sets that are pairwise
+	// contradictory on every terminal; those the compiler rejects are dropped.
+	seed, _ := strconv.ParseInt(os.Getenv("VERIF_SEED"), 10, 64)
+	r := rand.New(rand.NewSource(seed*6700417 + 8))
+	contradict := func(a, b []c08Lit) bool {
+		for _, x := range a {
+			for _, y := range b {
+				if x.Input == y.Input && x.Neg != y.Neg {
+					return true
+				}
+			}
+		}
+		return false
+	}
+	shares := func(a, b []int) bool {
+		for _, x := range a {
+			if slices.Contains(b, x) {
+				return true
+			}
+		}
+		return false
+	}
+	for tries := 0; tries < 4000 && len(recs) < max+max/2; tries++ {
+		n := 3 + r.Intn(3)
+		rec := &c08RT{ID: len(recs), Cancellable: r.Intn(2) == 0, Chosen: []int{}, Errs: []string{}, NLead: 2}
+		for i := 0; i < n; i++ {
+			var alt []c08Lit
+			for _, in := range r.Perm(3)[:1+r.Intn(2)] {
+				alt = append(alt, c08Lit{Input: in + 1, Neg: r.Intn(2) == 0})
+			}
+			rec.Alts = append(rec.Alts, alt)
+			rec.Leads = append(rec.Leads, [][]int{{1}, {2}, {1, 2}}[r.Intn(3)])
+		}
+		ok, crossOnly := true, false
+		for i := 0; i < n && ok; i++ {
+			for j := i + 1; j < n; j++ {
+				c := contradict(rec.Alts[i], rec.Alts[j])
+				if shares(rec.Leads[i], rec.Leads[j]) && !c {
+					ok = false
+				}
+				if !shares(rec.Leads[i], rec.Leads[j]) && !c {
+					crossOnly = true // compatible predicates kept apart by the terminal alone
+				}
+			}
+		}
+		if !ok || !crossOnly {
+			continue
+		}
+		pkg := fmt.Sprintf("k%d", len(recs))
+		var b strings.Builder
+		fmt.Fprintf(&b, "language %s(go);\n\npackage = \"rt/%s\"\neventBased = true\n", pkg, pkg)
+		if rec.Cancellable {
+			b.WriteString("cancellable = true\n")
+		}
+		b.WriteString("\n:: lexer\n\nWS: /[ \\n]+/ (space)\nty: /y/\ntn: /n/\ntx: /x/\ntp: /p/\ntq: /q/\n\n:: parser\n\n%input S;\n\nS -> Root:\n    tx Alt ;\n\nAlt:\n")
+		for k, alt := range rec.Alts {
+			var ps []string
+			for _, lit := range alt {
+				p := fmt.Sprintf("P%d", lit.Input)
+				if lit.Neg {
+					p = "!" + p
+				}
+				ps = append(ps, p)
+			}
+			sep := "  | "
+			if k == 0 {
+				sep = "    "
+			}
+			lead := "Lead"
+			if len(rec.Leads[k]) == 1 {
+				lead = []string{"tp", "tq"}[rec.Leads[k][0]-1]
+			}
+			fmt.Fprintf(&b, "%s(?= %s) %s Any Any Any -> Alt%d\n", sep, strings.Join(ps, " & "), lead, k+1)
+		}
+		b.WriteString(";\n\nLead:\n    tp | tq ;\n\nAny:\n    ty | tn ;\n\nP1:\n    Lead ty Any Any ;\n\nP2:\n    Lead Any ty Any ;\n\nP3:\n    Lead Any Any ty ;\n")
+		rec.TM = b.String() + c08Adapter
+		it := &evItem{Pkg: pkg, TM: rec.TM}
+		for _, lead := range []string{"p", "q"} {
+			for asg := 0; asg < 8; asg++ {
+				t := "x " + lead
+				for j := 0; j < 3; j++ {
+					if asg&(1<<j) != 0 {
+						t += " y"
+					} else {
+						t += " n"
+					}
+				}
+				it.Texts = append(it.Texts, t+" ")
+			}
+		}
+		recs = append(recs, rec)
+		items = append(items, it)
+	}
+	// many lookahead nonterminals in one grammar (the planner's set keys, the generated switch over lookahead rules)
+	for _, many := range []int{20, 33, 40} {
+		rec := &c08RT{ID: len(recs), Alts: [][]c08Lit{}, Leads: [][]int{}, Cancellable: many == 33, Chosen: []int{}, Errs: []string{}, NLead: 1, Many: many}
+		pkg := fmt.Sprintf("k%d", len(recs))
+		var b strings.Builder
+		fmt.Fprintf(&b, "language %s(go);\n\npackage = \"rt/%s\"\neventBased = true\n", pkg, pkg)
+		if rec.Cancellable {
+			b.WriteString("cancellable = true\n")
+		}
+		b.WriteString("\n:: lexer\n\nWS: /[ \\n]+/ (space)\nty: /y/\ntn: /n/\ntx: /x/\ntk: /k/\ntd: /d/\n\n:: parser\n\n%input S;\n\nS -> Root:\n    tx Sel1 ;\n\n")
+		for j := 1; j <= many; j++ {
+			if j < many {
+				fmt.Fprintf(&b, "Sel%d:\n    tk Sel%d | td Pair%d ;\n\n", j, j+1, j)
+			} else {
+				fmt.Fprintf(&b, "Sel%d:\n    td Pair%d ;\n\n", j, j)
+			}
+			fmt.Fprintf(&b, "Pair%d:\n    (?= Q%d) Any Any Any -> Alt%d\n  | (?= !Q%d) Any Any Any -> Alt%d\n;\n\n", j, j, 2*j-1, j, 2*j)
+			fmt.Fprintf(&b, "Q%d:\n    %s ;\n\n", j, []string{"ty Any Any", "Any ty Any", "Any Any ty"}[j%3])
+		}
+		b.WriteString("Any:\n    ty | tn ;\n")
+		rec.TM = b.String() + c08Adapter
+		it := &evItem{Pkg: pkg, TM: rec.TM}
+		for j := 1; j <= many; j++ {
+			pre := "x" + strings.Repeat(" k", j-1) + " d"
+			it.Texts = append(it.Texts, pre+" y y y ", pre+" n n n ")
+		}
+		recs = append(recs, rec)
+		items = append(items, it)
+	}
 	if err := evPipeline(args[1], items); err != nil {
 		return err
 	}
@@ -242,6 +375,9 @@ func c08RTRun(args []string) error {
 		return err
 	}
 	for i, rec := range recs {
+		if rec.NLead == 2 && items[i].GenErr != "" && strings.HasPrefix(items[i].GenErr, "compile:") {
+			continue // not an accepted set
+		}
 		it := items[i]
 		rec.GenErr = it.GenErr
 		for k := range it.Events {
